@@ -50,9 +50,13 @@ func natName(p string) string {
 	return n
 }
 
-// queries over one module path. level 2 = the whole query language, 1 = reduced.
+// queries over one module path. level 2 = the whole query language, 1 = reduced, 0 = no
+// version and every exact version.
 func pathQueries(p string, versions []string, level int, branches []string, revs []string, prefixes []string) []mvsfake.Query {
-	q := []mvsfake.Query{{Path: p, Kind: "none"}, {Path: p, Kind: "upgrade"}, {Path: p, Kind: "patch"}}
+	q := []mvsfake.Query{{Path: p, Kind: "none"}}
+	if level >= 1 {
+		q = append(q, mvsfake.Query{Path: p, Kind: "upgrade"}, mvsfake.Query{Path: p, Kind: "patch"})
+	}
 	for _, v := range versions {
 		q = append(q, mvsfake.Query{Path: p, Kind: "exact", Arg: v})
 	}
@@ -72,7 +76,7 @@ func pathQueries(p string, versions []string, level int, branches []string, revs
 		for _, x := range prefixes {
 			q = append(q, mvsfake.Query{Path: p, Kind: "prefix", Arg: x})
 		}
-	} else if len(versions) > 1 {
+	} else if len(versions) > 1 && level >= 1 {
 		q = append(q, mvsfake.Query{Path: p, Kind: "lt", Arg: versions[len(versions)-1]})
 	}
 	return q
@@ -80,7 +84,7 @@ func pathQueries(p string, versions []string, level int, branches []string, revs
 
 // generic builds a family out of a mvsfake.Family, adding a second branch "dev" one revision
 // below the head of every repository.
-func generic(f *mvsfake.Family, level int, rotated bool, depth int, prefixes map[string][]string) *fam {
+func generic(f *mvsfake.Family, level int, refs bool, rotated bool, depth int) *fam {
 	out := &fam{name: f.Name, count: f.Count(), rotated: rotated, depth: depth, rootSets: f.RootSets()}
 	out.universe = func(i int64) *mvsfake.Universe {
 		u := f.Universe(i)
@@ -96,13 +100,21 @@ func generic(f *mvsfake.Family, level int, rotated bool, depth int, prefixes map
 		mp := f.Path(i)
 		out.paths = append(out.paths, mp)
 		repo := w.Repo(mp)
-		branches := []string{"main"}
-		if repo.Branch("dev") != nil && level >= 2 {
-			branches = append(branches, "dev")
+		var branches, revs []string
+		if refs {
+			branches = []string{"main"}
+			if repo.Branch("dev") != nil && level >= 2 {
+				branches = append(branches, "dev")
+			}
+			// one revision addressed by its abbreviated id: the one after the project's first tag
+			// (tagged for another project in a shared repository), else that first tag's own
+			ri := w.TagRev(mp, p.Versions[0])
+			if ri < repo.Spec().NRevs {
+				ri++
+			}
+			revs = []string{repo.Rev(ri).PseudoID()}
 		}
-		// one revision addressed by its abbreviated id: the first revision of the repository
-		revs := []string{repo.Rev(1).PseudoID()}
-		out.queries = append(out.queries, pathQueries(mp, p.Versions, level, branches, revs, prefixes[p.Dir])...)
+		out.queries = append(out.queries, pathQueries(mp, p.Versions, level, branches, revs, nil)...)
 	}
 	return out
 }
@@ -182,7 +194,11 @@ func familyT(depth int) *fam {
 		if p == "c" || p == "d" {
 			lvl, pre = 2, []string{"v1.3", "v1.4"}
 		}
-		out.queries = append(out.queries, pathQueries(sandbox+"/"+p, vs[p], lvl, []string{"main"}, nil, pre)...)
+		br := []string{"main", "tip"}
+		if p == "d" {
+			br = []string{"tip"} // d does not exist yet on main (revision 1)
+		}
+		out.queries = append(out.queries, pathQueries(sandbox+"/"+p, vs[p], lvl, br, nil, pre)...)
 	}
 	return out
 }
@@ -265,6 +281,7 @@ type trans struct {
 	kind   string // operation kind label, computed before running
 	want   string // the version the query stands for in the graph oracles ("" = none)
 	ref    string // reference resolution of the query
+	bad    string // probe only: signature under which its query resolution was reported
 }
 
 type sinfo struct {
@@ -492,9 +509,26 @@ func (e *explorer) check(si *sinfo, oi int) {
 		class("panic")
 		return
 	}
+	// a current-independent query whose resolution was already reported as wrong (at the
+	// empty requirement set): what follows from the mis-resolved version is counted under
+	// that cause, not as a separate one
+	taint := func() string {
+		if o.kind == "get" && independent(o.q.Kind) {
+			if pt := e.empty.tr[oi]; pt != nil {
+				return pt.bad
+			}
+		}
+		return ""
+	}
 	viol := func(sig, what string, extra map[string]any) {
 		if extra == nil {
 			extra = map[string]any{}
+		}
+		if tainted := taint(); tainted != "" && tainted != sig {
+			what = "(follows from the mis-resolved query; would be " + sig + ") " + what
+			extra["consequence_signature"] = sig
+			sig = tainted
+			e.t.Add("consequences-of-misresolved-query", 1)
 		}
 		if tr.to != "" {
 			extra["returned"] = e.states[tr.to].s
@@ -515,7 +549,8 @@ func (e *explorer) check(si *sinfo, oi int) {
 		switch {
 		case tr.err != "" && tr.kind == "get-nomatch":
 		case tr.err != "":
-			viol("C11:query-resolution:"+group, "failed: "+tr.err+"; the reference resolves the query to "+tr.ref, nil)
+			tr.bad = "C11:query-resolution:" + group
+			viol(tr.bad, "failed: "+tr.err+"; the reference resolves the query to "+tr.ref, nil)
 			class("error")
 			return
 		default:
@@ -525,7 +560,8 @@ func (e *explorer) check(si *sinfo, oi int) {
 			}
 			switch {
 			case tr.kind == "get-nomatch":
-				viol("C11:query-resolution:"+group, "resolved to "+got+" although no version satisfies the query", nil)
+				tr.bad = "C11:query-resolution:" + group
+				viol(tr.bad, "resolved to "+got+" although no version satisfies the query", nil)
 				class("result-for-unsatisfiable-query")
 				return
 			case !e.w.SameUntaggedRevision(o.q, tr.ref, got):
@@ -534,6 +570,7 @@ func (e *explorer) check(si *sinfo, oi int) {
 					sig = "C11:ref-query-oldest-ancestor"
 				}
 				viol(sig, fmt.Sprintf("the query resolved to %s, the reference resolves it to %s", got, tr.ref), nil)
+				tr.bad = sig
 			}
 			if got != "" {
 				want = got // (b) the graph oracles below are relative to the version actually resolved
@@ -820,16 +857,20 @@ func main() {
 	fams := []*fam{
 		familyT(depth),
 		familyB(depth),
-		generic(&mvsfake.Family{Name: "2x2", Addr: "example.com", Projects: []mvsfake.ProjectDef{pa, pb}}, 2, true, depth, nil),
+		generic(&mvsfake.Family{Name: "2x2", Addr: "example.com", Projects: []mvsfake.ProjectDef{pa, pb}}, 2, true, true, depth),
 		generic(&mvsfake.Family{Name: "2x2 one repository per project, projects declare the same name", Addr: "example.com", Split: true,
-			Projects: []mvsfake.ProjectDef{named(pa, "x"), named(pb, "x")}}, 2, true, depth, nil),
+			Projects: []mvsfake.ProjectDef{named(pa, "x"), named(pb, "x")}}, 2, true, true, depth),
 		generic(&mvsfake.Family{Name: "majors c(v1.0.0 v1.1.0), c@v2(v2.0.0 v2.1.0)", Addr: "github.com/o/r",
-			Projects: []mvsfake.ProjectDef{two("c", "v1.0.0", "v1.1.0"), two("c", "v2.0.0", "v2.1.0")}}, 2, true, depth, nil),
+			Projects: []mvsfake.ProjectDef{two("c", "v1.0.0", "v1.1.0"), two("c", "v2.0.0", "v2.1.0")}}, 2, false, true, depth),
 		generic(&mvsfake.Family{Name: "majors, projects declare the same name", Addr: "github.com/o/r",
-			Projects: []mvsfake.ProjectDef{named(two("c", "v1.0.0", "v1.1.0"), "x"), named(two("c", "v2.0.0", "v2.1.0"), "x")}}, 1, true, depth, nil),
-		generic(&mvsfake.Family{Name: "v0-v1 z(v0.9.0 v1.0.0), y", Addr: "example.com", Projects: []mvsfake.ProjectDef{two("z", "v0.9.0", "v1.0.0"), one("y", "v1.0.0")}}, 2, false, depth, nil),
+			Projects: []mvsfake.ProjectDef{named(two("c", "v1.0.0", "v1.1.0"), "x"), named(two("c", "v2.0.0", "v2.1.0"), "x")}}, 1, false, true, depth),
+		generic(&mvsfake.Family{Name: "v0-v1 z(v0.9.0 v1.0.0), y", Addr: "example.com", Projects: []mvsfake.ProjectDef{two("z", "v0.9.0", "v1.0.0"), one("y", "v1.0.0")}}, 2, true, false, depth),
 	}
-	big := generic(&mvsfake.Family{Name: "2x2+1", Addr: "example.com", Projects: []mvsfake.ProjectDef{pa, pb, one("c", "v1.0.0")}}, 1, false, 2, nil)
+	bigLevel, bigRefs := 0, false
+	if r.Thorough() {
+		bigLevel, bigRefs = 1, true
+	}
+	big := generic(&mvsfake.Family{Name: "2x2+1", Addr: "example.com", Projects: []mvsfake.ProjectDef{pa, pb, one("c", "v1.0.0")}}, bigLevel, bigRefs, false, 2)
 	fams = append(fams, big)
 
 	var perFam [][]item
